@@ -244,6 +244,11 @@ def s_status( ctx ):
                     what, want_status, [ '0x%04X' % x for x in want_ext ], _show( sv ), _show( ev )), func='Logix.request' )
     at( lambda s: any( is_call_to( c, 'resolve', 'lookup' ) for c in ast.walk( s ) if isinstance( c, ast.Call )) and isinstance( s, ast.Assign ),
         0x05, ( 0x0000, ), 'unknown tag/attribute (resolve/lookup)' )
+    # ... the attribute the path names does not exist ( lookup gave None ): still "path destination unknown", not an element range error
+    looked = { t_.id for a_ in ast.walk( fn ) if isinstance( a_, ast.Assign ) and is_call_to( a_.value, 'lookup', 'device.lookup' ) for t_ in a_.targets if isinstance( t_, ast.Name ) }
+    at( lambda s: isinstance( s, ast.Assert ) and isinstance( s.test, ast.Compare ) and isinstance( s.test.ops[0], ast.IsNot ) and isinstance( s.test.left, ast.Name ) and s.test.left.id in looked
+        and isinstance( s.test.comparators[0], ast.Constant ) and s.test.comparators[0].value is None,
+        0x05, ( 0x0000, ), 'unknown attribute ( lookup gave nothing )' )
     at( lambda s: isinstance( s, ast.Assert ) and isinstance( s.test, ast.Compare ) and isinstance( s.test.ops[0], ast.In )
         and 'type' in attrs_in( s.test.left ),
         0xFF, ( 0x2107, ), 'data type mismatch (type-compatibility assert)' )
@@ -4330,4 +4335,37 @@ def k_release( ctx ):
         res.ok( src, rel[0], 'every way out of a TCP session tells the processor ( empty request ) - in the finally, absorbed so that the connection is still closed' )
     else:
         res.bad( src, rel[0], 'enip_srv_tcp: the release in the finally may raise ahead of conn.close()', 'a failing clean-up must not keep the connection open or its statistics entry alive' )
+    return res
+
+
+@rule( 'D-ROUTE', props=( 'C05', 'C03' ), floor=1 )
+def d_route( ctx ):
+    """Message_Router.route: "this request is for me" means class AND instance are this Object's - any other address is looked up, and an
+    address nothing lives at is refused ( False / the exception ), never taken for one's own.  By value: the body of route run on five
+    addresses with stand-ins for resolve and lookup."""
+    res = Result( 'D-ROUTE' )
+    src = ctx.src( DEVICE )
+    fn = src.get( 'Message_Router.route' )
+    DATA = fn.args.args[1].arg
+    FAIL = fn.args.args[2].arg if len( fn.args.args ) > 2 else 'fail'
+    body = [ st for st in fn.body if not ( isinstance( st, ast.Expr ) and isinstance( st.value, ast.Constant )) ]
+    table = { ( 2, 7 ): None, ( 2, 9 ): 'OBJECT 2/9', ( 0x99, 1 ): 'OBJECT 0x99/1', ( 0x77, 1 ): None }
+    def route( ids ):
+        env = { DATA: ( { 'path': 'P' } if ids is not None else {} ), 'resolve': lambda p_, **kw: ids, 'device.resolve': lambda p_, **kw: ids, 'lookup': lambda *a: table.get( tuple( a[:2] )),
+                'device.lookup': lambda *a: table.get( tuple( a[:2] )), 'self.class_id': 2, 'self.instance_id': 1, FAIL: 'FALSE', 'self.ROUTE_FALSE': 'FALSE', 'self.ROUTE_RAISE': 'RAISE' }
+        try:
+            out = run_block( body, env, ignore_calls=( 'log', ))
+        except NoFold as exc:
+            raise AnalysisError( 'Message_Router.route: not a decision fragment: %s' % exc )
+        return out.value if out.kind == 'return' else out.kind
+    cells = (( None, None ), (( 2, 1, None ), None ), (( 2, 7, None ), False ), (( 2, 9, None ), 'OBJECT 2/9' ), (( 0x99, 1, None ), 'OBJECT 0x99/1' ), (( 0x77, 1, None ), False ))
+    wrong = [ ( ids, route( ids ), want ) for ids, want in cells ]
+    wrong = [ w for w in wrong if w[1] != w[2] and not ( w[2] is None and w[1] is None ) ]
+    res.cells = len( cells )
+    if wrong:
+        ids, got, want = wrong[0]
+        res.bad( src, fn, 'Message_Router.route of a request addressed to %r answers %r, specified %r' % ( ids[:2] if ids else None, got, want ),
+                 'a Multiple Service Packet addressed to an instance of the router\'s class that does not exist ( @2/7 ) is carried out by THIS router: its embedded writes are applied and answered with success, where a request naming an unknown Object must be refused without side effects' )
+    else:
+        res.ok( src, fn, 'route: own ( class, instance ) -> None, another Object -> that Object, nothing there -> refused ( %d addresses )' % len( cells ))
     return res
